@@ -862,6 +862,33 @@ pub fn rich_file(c: &mut Choice, o: &RichOpts) -> Rich {
             }
         }
     }
+    if o.override_chance > 0 {
+        // the extended-numbering escape values on files that do not need them (keyed on non-zero bytes)
+        let k = c.u8();
+        if k == 0x51 {
+            f.overrides.push(Override { target: Target::Ehdr, field: "e_phnum", value: 0xffff });
+            n_over += 1;
+        } else if k == 0x52 {
+            f.overrides.push(Override { target: Target::Ehdr, field: "e_shnum", value: 0 });
+            n_over += 1;
+        } else if k == 0x53 {
+            f.overrides.push(Override { target: Target::Ehdr, field: "e_shstrndx", value: 0xffff });
+            n_over += 1;
+        } else if k == 0x55 && !first.shdrs.is_empty() {
+            // extended section numbering although the count would fit: e_shnum = 0, shdr[0].sh_size = count
+            f.overrides.push(Override { target: Target::Ehdr, field: "e_shnum", value: 0 });
+            f.overrides.push(Override { target: Target::Shdr(0), field: "sh_size", value: first.shdrs.len() as u64 });
+            n_over += 2;
+        } else if k == 0x56 && !first.shdrs.is_empty() && !first.phdrs.is_empty() {
+            f.overrides.push(Override { target: Target::Ehdr, field: "e_phnum", value: 0xffff });
+            f.overrides.push(Override { target: Target::Shdr(0), field: "sh_info", value: first.phdrs.len() as u64 });
+            n_over += 2;
+        } else if k == 0x54 {
+            f.overrides.push(Override { target: Target::Ehdr, field: "e_phnum", value: 0xffff });
+            f.overrides.push(Override { target: Target::Ehdr, field: "e_shoff", value: 0 });
+            n_over += 2;
+        }
+    }
     if c.chance(o.shrink_chance) && !first.shdrs.is_empty() {
         // prefer the record-structured sections (version, symbol, hash, note, dynamic)
         let cands: Vec<usize> = (0..kinds.len().min(first.shdrs.len())).filter(|i| matches!(kinds[*i], Kind::Verdef | Kind::Verneed | Kind::Versym | Kind::Dynsym | Kind::Symtab | Kind::Hash | Kind::GnuHash | Kind::Note | Kind::Dynamic | Kind::Rel | Kind::Rela)).collect();
